@@ -88,7 +88,7 @@ func runsProgram(fns []*ssa.Function) map[*ssa.Function]bool {
 }
 
 func C08(c *Ctx) {
-	c.R.Explanation = "Decides structural necessary conditions of 'emission is atomic and ordered': (R1) in the ECMAScript interpreter every return that can carry a non-nil error after the program has run returns a nil Execution (core adds an Execution's events whenever it is non-nil, so this is the point that carries atomicity); (R2) the emit callback appends only to the Execution allocated by this call, and every emitted value is a private copy (not reachable from the script world or the caller's data); (R3) from the result of a guard execution only Bs and Events.Traces are read — it never reaches AddEvents/AddEmitted; (R4) the accumulation functions (AddEmitted, AddEvents, Traces.Add, DoEmitted, Walked.add, the emit callback) contain no map range and no go statement and every append extends its own first operand; (R5) in sio.ProcessMsg the re-queue and report appends are unconditional in the per-message callback, and each reported batch is a slice allocated inside the per-machine loop; (R6) every return of core Step that is reachable after the action's events were attached returns that stride unless the action itself failed, and Walk hands every stride returned by Step to Walked.add before the next step or a return. Timeouts at run time and native actions are not decided."
+	c.R.Explanation = "Decides structural necessary conditions of 'emission is atomic and ordered': (R1) in the ECMAScript interpreter every return that can carry a non-nil error after the program has run returns a nil Execution (core adds an Execution's events whenever it is non-nil, so this is the point that carries atomicity); (R2) the emit callback appends only to the Execution allocated by this call, and every emitted value is a private copy (not reachable from the script world or the caller's data); (R3) from the result of a guard execution only Bs and Events.Traces are read — it never reaches AddEvents/AddEmitted; (R4) the accumulation functions — every function of core or of the interpreter that extends or enumerates an ordered record (Events.Emitted, Traces.Messages, Walked.Strides), and the emit callback — contain no go statement, never extend an ordered record or call an accumulator inside a range over a map, and every such append extends its own first operand; (R5) in sio.ProcessMsg the re-queue and report appends are unconditional in the per-message callback, and each reported batch is a slice allocated inside the per-machine loop; (R6) every return of core Step that is reachable after the action's events were attached returns that stride unless the action itself failed, and Walk hands every stride returned by Step to Walked.add before the next step or a return. Timeouts at run time and native actions are not decided."
 	c.R.Rule("C08-R1", "E3", "no emissions together with an error from the interpreter", 2)
 	c.R.Rule("C08-R2", "E1", "private emit buffer; emitted values are private copies", 2)
 	c.R.Rule("C08-R3", "E5", "guard executions contribute traces only", 1)
@@ -271,43 +271,108 @@ func guardSlice(v ssa.Value, depth int, path string, seen map[ssa.Value]bool) []
 	return bad
 }
 
-// c08Order: accumulators.
+// c08Order: accumulators.  An accumulator is any function of core or of the
+// interpreter that extends one of the ordered record fields (Events.Emitted,
+// Traces.Messages, Walked.Strides) or enumerates one (ranges over
+// Walked.Strides / Events.Emitted), plus every function literal of the
+// interpreter that calls one (the emit callback).  Found by what they do, not
+// by name.
 func c08Order(c *Ctx) {
-	targets := []*ssa.Function{
-		c.fn("core", "Events", "AddEmitted"), c.fn("core", "Events", "AddEvents"), c.fn("core", "Traces", "Add"),
-		c.fn("core", "Walked", "DoEmitted"), c.fn("core", "Walked", "add"), c.fn("core", "Events", "AddTrace"),
+	ordered := [][2]string{{"Events", "Emitted"}, {"Traces", "Messages"}, {"Walked", "Strides"}}
+	isOrderedAddr := func(addr ssa.Value) (string, bool) {
+		for _, of := range ordered {
+			if ssau.IsField(addr, prog.Abs("core"), of[0], of[1]) {
+				return of[0] + "." + of[1], true
+			}
+		}
+		return "", false
 	}
-	if exec := c.P.Func("interpreters/ecmascript", "Interpreter", "Exec"); exec != nil {
-		addEmitted := c.P.Func("core", "Events", "AddEmitted")
-		for _, an := range ssau.WithAnon(exec)[1:] {
-			if len(ssau.Calls(an, func(string) bool { return true })) > 0 {
-				for _, ci := range ssau.Calls(an, func(n string) bool { return true }) {
-					if ci.Common().StaticCallee() == addEmitted {
-						targets = append(targets, an)
+	var fns []*ssa.Function
+	seen := map[*ssa.Function]bool{}
+	for _, f := range c.P.FuncsIn("core", "interpreters/ecmascript") {
+		for _, g := range ssau.WithAnon(f) {
+			if !seen[g] && g.Blocks != nil {
+				seen[g] = true
+				fns = append(fns, g)
+			}
+		}
+	}
+	sort.Slice(fns, func(i, j int) bool { return fname(fns[i]) < fname(fns[j]) })
+	isAcc := map[*ssa.Function]bool{}
+	for _, f := range fns {
+		ssau.Instrs(f, func(in ssa.Instruction) {
+			switch x := in.(type) {
+			case *ssa.Store:
+				if _, is := isOrderedAddr(x.Addr); is {
+					if cl, isC := x.Val.(*ssa.Call); isC {
+						if b, isB := cl.Common().Value.(*ssa.Builtin); isB && b.Name() == "append" {
+							isAcc[f] = true
+						}
+					}
+				}
+			}
+		})
+		for _, l := range flow.Loops(f) {
+			if op := loopOperand(l); op != nil {
+				if ld, isLd := op.(*ssa.UnOp); isLd {
+					if _, is := isOrderedAddr(ld.X); is {
+						isAcc[f] = true
 					}
 				}
 			}
 		}
 	}
-	for _, f := range targets {
-		if f == nil {
+	// literals of the interpreter that call an accumulator
+	for _, f := range fns {
+		if f.Parent() == nil || prog.PkgOf(f) != "interpreters/ecmascript" {
+			continue
+		}
+		ssau.Instrs(f, func(in ssa.Instruction) {
+			if ci, ok := in.(ssa.CallInstruction); ok {
+				if sc := ci.Common().StaticCallee(); sc != nil && isAcc[sc] {
+					isAcc[f] = true
+				}
+			}
+		})
+	}
+	for _, f := range fns {
+		if !isAcc[f] {
 			continue
 		}
 		c.R.Fn(fname(f))
+		loops := flow.Loops(f)
+		inMapRange := func(b *ssa.BasicBlock) bool {
+			for _, l := range enclosingLoops(loops, b) {
+				if op := loopOperand(l); op != nil {
+					if _, isMap := op.Type().Underlying().(*types.Map); isMap {
+						return true
+					}
+				}
+			}
+			return false
+		}
 		var bad []string
 		ssau.Instrs(f, func(in ssa.Instruction) {
 			switch x := in.(type) {
 			case *ssa.Go:
 				bad = append(bad, "go statement")
-			case *ssa.Range:
-				if _, ok := x.X.Type().Underlying().(interface{ Key() interface{} }); ok {
-					bad = append(bad, "map range")
-				}
-				if strings.HasPrefix(x.X.Type().Underlying().String(), "map[") {
-					bad = append(bad, "map range")
-				}
 			case *ssa.Call:
 				if b, ok := x.Common().Value.(*ssa.Builtin); ok && b.Name() == "append" {
+					// only appends whose result goes to an ordered record (directly or through an accumulator) matter
+					toOrdered := false
+					for _, r := range ssau.Referrers(x) {
+						if st, ok := r.(*ssa.Store); ok && st.Val == ssa.Value(x) {
+							if _, is := isOrderedAddr(st.Addr); is {
+								toOrdered = true
+							}
+						}
+					}
+					if !toOrdered {
+						return
+					}
+					if inMapRange(x.Block()) {
+						bad = append(bad, "an ordered record is extended inside a range over a map (order would follow map iteration)")
+					}
 					// result must be stored back to where the first operand was loaded from
 					first := x.Common().Args[0]
 					ld, ok := first.(*ssa.UnOp)
@@ -324,10 +389,12 @@ func c08Order(c *Ctx) {
 					if !okStore {
 						bad = append(bad, "append result not stored back to its own operand")
 					}
+				} else if sc := x.Common().StaticCallee(); sc != nil && isAcc[sc] && inMapRange(x.Block()) {
+					bad = append(bad, "an accumulator ("+sc.Name()+") is called inside a range over a map (order would follow map iteration)")
 				}
 			}
 		})
-		c.R.Check(len(bad) == 0, "C08-R4", fname(f), c.P.Pos(f.Pos()), "no go, no map range, appends extend their own operand", strings.Join(bad, "; "))
+		c.R.Check(len(bad) == 0, "C08-R4", fname(f), c.P.Pos(f.Pos()), "no go; ordered records are never extended inside a map range; appends extend their own operand", strings.Join(bad, "; "))
 	}
 }
 
@@ -692,23 +759,55 @@ func c08Step(c *Ctx) {
 	}
 	// R6b: Walk records the stride Step returned
 	c.R.Fn(fname(walk))
-	add := c.P.Func("core", "Walked", "add")
+	// the record: a call of a function that appends its argument to Walked.Strides, or that append spelled out in Walk
+	appendsToStrides := func(f *ssa.Function) (elem ssa.Value, at ssa.Instruction) {
+		ssau.Instrs(f, func(in ssa.Instruction) {
+			st, ok := in.(*ssa.Store)
+			if !ok || !ssau.IsField(st.Addr, prog.Abs("core"), "Walked", "Strides") {
+				return
+			}
+			if cl, isC := st.Val.(*ssa.Call); isC {
+				if b, isB := cl.Common().Value.(*ssa.Builtin); isB && b.Name() == "append" {
+					if es, _ := appended(cl); len(es) == 1 {
+						elem, at = es[0], in
+					}
+				}
+			}
+		})
+		return
+	}
 	var stepCall *ssa.Call
-	var rec ssa.CallInstruction
+	var rec ssa.Instruction
+	var recArg ssa.Value
 	ssau.Instrs(walk, func(in ssa.Instruction) {
 		if cl, ok := in.(*ssa.Call); ok && cl.Common().StaticCallee() == step {
 			stepCall = cl
 		}
-		if ci, ok := in.(ssa.CallInstruction); ok && add != nil && ci.Common().StaticCallee() == add {
-			rec = ci
+		if ci, ok := in.(ssa.CallInstruction); ok {
+			if sc := ci.Common().StaticCallee(); sc != nil && sc.Blocks != nil && prog.PkgOf(sc) == "core" {
+				if e, _ := appendsToStrides(sc); e != nil {
+					if pr, isP := e.(*ssa.Parameter); isP {
+						for i, fp := range sc.Params {
+							if fp == pr && i < len(ci.Common().Args) {
+								rec, recArg = in, ci.Common().Args[i]
+							}
+						}
+					}
+				}
+			}
 		}
 	})
+	if rec == nil {
+		if e, at := appendsToStrides(walk); e != nil {
+			rec, recArg = at, e
+		}
+	}
 	if stepCall == nil || rec == nil {
-		c.R.Break("C08-R6: Walk's Step call or Walked.add call not found")
+		c.R.Break("C08-R6: Walk's Step call or the append to Walked.Strides not found")
 		return
 	}
 	ok := false
-	for _, d := range phiDefs(rec.Common().Args[1], nil, map[ssa.Value]bool{}) {
+	for _, d := range phiDefs(recArg, nil, map[ssa.Value]bool{}) {
 		if ex, isEx := d.(*ssa.Extract); isEx && ex.Tuple == ssa.Value(stepCall) && ex.Index == 0 {
 			ok = true
 		}
@@ -730,5 +829,5 @@ func c08Step(c *Ctx) {
 			}
 		}
 	}
-	c.R.Check(ok, "C08-R6", "Walk: every stride returned by Step is recorded", c.pos(rec), "Walked.add(stride) lies on every path from the Step call to the next step or a return", why)
+	c.R.Check(ok, "C08-R6", "Walk: every stride returned by Step is recorded", c.pos(rec), "the append of the stride to Walked.Strides lies on every path from the Step call to the next step or a return", why)
 }
